@@ -909,6 +909,22 @@ fn part_rle(case_seed: u64, r: &mut Report) {
         r.count(&format!("rle[{}]", ["i64", "u8", "String"][kind]), 1);
         r.eval(h ^ n as u64, n >= 2);
     }
+    // one case in eight also carries a very long run (2^k - 1, 2^k, 2^k + 1 elements, k = 16..22)
+    // between two short ones: a run counter that is capped, split or narrowed loses elements only
+    // beyond such an edge. Second random stream, so the cases above stay what they were.
+    let mut lrng = Rng::new(case_seed ^ 0x10A6_0C20_517E);
+    if ok && lrng.chance(1, 8) {
+        let k = 16 + lrng.below(7);
+        let len = ((1usize << k) as i64 + lrng.below(3) as i64 - 1) as usize;
+        let a = lrng.next_u64() as u8;
+        let mut d: Vec<u8> = vec![a.wrapping_add(1); lrng.below(4)];
+        d.extend(std::iter::repeat(a).take(len));
+        d.extend(std::iter::repeat(a.wrapping_add(2)).take(lrng.below(4)));
+        if rle_check(&d, "u8 with a run at a power-of-two edge", case_seed, r) {
+            r.count("rle[u8-long-run]", 1);
+            r.eval(hash_bytes(&[a, k as u8]) ^ d.len() as u64, true);
+        }
+    }
 }
 
 // ------------------------------------------------------------------------------------------------
